@@ -34,6 +34,11 @@ var universeB = map[string]string{
 	"u/onebaz/onebaz.go":   "package onebaz\n\ntype S struct{ V int }\n",
 	"u/m-n/mn.go":          "package mn\n\ntype M struct{ V int }\n",
 	"u/m_n/mn.go":          "package mn2\n\ntype M struct{ V int }\n",
+	// a package named like the name moq gives a parameter that collides with
+	// package chain: renaming the parameter out of one collision walks it into
+	// the next (used by the "rename chain" method only)
+	"u/k/chain/chain.go":     "package chain\n\ntype K struct{ V int }\n",
+	"u/k/chainmp/chainmp.go": "package chainMoqParam\n\ntype Z struct{ V int }\n",
 }
 
 type btype struct{ alias, path, typ string }
@@ -257,7 +262,27 @@ func GenerateB(spec Spec) *CorpusB {
 				}
 				body.WriteString("}\n")
 			}
-			src := "package " + p.ID + "\n\n" + g.finish(body.String())
+			text := body.String()
+			chain := false
+			if st := tape.New(tape.Mix(tape.MixS(spec.Seed, "corpusB-chain"), uint64(pi))); fi == 0 && st.Int(4) == 0 {
+				// a parameter named like a package that only a later parameter's type
+				// brings in - together with a second package named like the
+				// parameter's replacement name
+				variants := []string{
+					"\tMC(chain int, m map[chain.K]chainMoqParam.Z) error\n}\n",
+					"\tMC(chain string, fn func(chainMoqParam.Z) *chain.K)\n}\n",
+					"\tMC(n int, chain []byte, pair struct {\n\t\tA chainMoqParam.Z\n\t\tB chain.K\n\t}) (chain.K, error)\n}\n",
+				}
+				if i := strings.Index(text, "}\n"); i >= 0 {
+					text = text[:i] + variants[st.Int(len(variants))] + text[i+2:]
+					chain = true
+				}
+			}
+			fin := g.finish(text)
+			if chain {
+				fin = strings.Replace(fin, "import (\n", "import (\n\t\""+ModuleB+"/u/k/chain\"\n\t\""+ModuleB+"/u/k/chainmp\"\n", 1)
+			}
+			src := "package " + p.ID + "\n\n" + fin
 			if fi == 0 {
 				src += "\ntype Plain struct{ V int }\n"
 			}
